@@ -20,12 +20,17 @@ walk's own result is such a correspondence (soundness) and, if one exists, the w
 (completeness).  Symmetry of `==` follows, although the two directions visit children in
 different orders; and `==` does not depend on the order in which dict entries or arguments were
 inserted (`Reordered`).
-Not proved (correspondence only): transitivity of the *sharing walk* (it needs the value
-comparison at every paired node), and congruence with `build`.
+Transitivity of `==` composes the two correspondences after restricting them to value-equal
+pairs (`Lemmas/ShareTrans.lean`): the value comparison supplies "paired objects have the same
+kind" and "paired children are internable together", which the composition needs.
+So `==` is an equivalence relation on well-formed heaps: `C06_reflexive`, `C06_symmetric`,
+`C06_transitive`.
+Not proved (oracle only): congruence with `build`.
 -/
 import FiddleModel.Lemmas.EqSymm
 import FiddleModel.Lemmas.ShareL
 import FiddleModel.Lemmas.EqOrder
+import FiddleModel.Lemmas.ShareTrans
 
 namespace Fiddle
 
@@ -148,6 +153,15 @@ theorem C06_symmetric (h1 h2 : Heap) (w1 : h1.EqWF) (w2 : h2.EqWF) (r1 r2 : GVal
   refine ⟨valEq_symm h1 h2 w1 w2 _ r1 r2 h.1, ?_⟩
   exact shareVisit_symm h1 h2 w1 w2 _ _ r1 r2
     (fun i hi => by have := hr1 i hi; omega) (fun j hj => by have := hr2 j hj; omega) h.2
+
+/-- **`==` is transitive** (three configurations, any three heaps): values by
+    `C06_values_transitive`, sharing by composing the two one-to-one correspondences. -/
+theorem C06_transitive (h1 h2 h3 : Heap) (w1 : h1.EqWF) (w2 : h2.EqWF) (w3 : h3.EqWF)
+    (x y z : GVal) (hx : ∀ i, x = .ref i → i < h1.length) (hy : ∀ j, y = .ref j → j < h2.length)
+    (hz : ∀ k, z = .ref k → k < h3.length)
+    (e12 : buildableEq h1 h2 x y = true) (e23 : buildableEq h2 h3 y z = true) :
+    buildableEq h1 h3 x z = true :=
+  buildableEq_trans h1 h2 h3 w1 w2 w3 x y z hx hy hz e12 e23
 
 /-- **`==` ignores dict insertion order and argument assignment order**: listing the entries of
     any dicts, defaultdicts or Buildables (on either side) in another order changes neither the
